@@ -58,8 +58,11 @@ def windows(p, rnd, n_random=4, small=False):
           (8, 1, 8, H - 2)]
     if W8 > 256:
         ws += [(256, 8, 8, 4), (W8 - 8, 0, 8, 2), (248, 3, 24, 5)]
+        ws += [(240, 0, 16, 4), (248, 3, 8, 2), (232, 5, 16, 3)]     # exclusive end exactly 256 / one byte short
     if H > 256:
         ws += [(0, 250, 16, 10), (8, 255, 8, 2), (0, 256, 8, 1)]
+        # exclusive end exactly 256 / last row exactly 255 (carry into the high byte), and one short of it
+        ws += [(8, 246, 16, 10), (0, 255, 8, 1), (0, 200, 8, 56), (16, 245, 8, 10)]
     for _ in range(n_random):
         w = rnd.randrange(1, W8 // 8 + 1) * 8
         x = rnd.randrange(0, (W8 - w) // 8 + 1) * 8
